@@ -36,6 +36,7 @@
 #include "quill/core/ThreadContextManager.h"
 #include "quill/core/TimeUtilities.h"
 #include "quill/core/UnboundedSPSCQueue.h"
+#include "quill/core/VerifHook.h"
 #include "quill/sinks/Sink.h"
 
 #include "quill/bundled/fmt/base.h"
@@ -275,6 +276,7 @@ private:
   {
     // load all contexts locally
     _update_active_thread_contexts_cache();
+    QUILL_VERIF_YIELD(1);
 
     // Read all frontend queues and cache the log statements and the metadata as TransitEvents
     size_t const cached_transit_events_count = _populate_transit_events_from_frontend_queues();
@@ -285,6 +287,7 @@ private:
       if (cached_transit_events_count < _options.transit_events_soft_limit)
       {
         // process a single transit event, then give priority to reading the frontend queues again
+        QUILL_VERIF_YIELD(5);
         _process_lowest_timestamp_transit_event();
       }
       else
@@ -304,16 +307,20 @@ private:
     {
       // No cached transit events to process, minimal thread workload.
 
+      QUILL_VERIF_YIELD(6);
+
       // force flush all remaining messages
       _flush_and_run_active_sinks(true, _options.sink_min_flush_interval);
 
       // check for any dropped messages / blocked threads
+      QUILL_VERIF_YIELD(7);
       _check_failure_counter(_options.error_notifier);
 
       // This is useful when BackendTscClock is used to keep it up to date
       _resync_rdtsc_clock();
 
       // Also check if all queues are empty
+      QUILL_VERIF_YIELD(8);
       bool const queues_and_events_empty = _check_frontend_queues_and_cached_transit_events_empty();
       if (queues_and_events_empty)
       {
@@ -433,6 +440,8 @@ private:
                                 .count())
       : std::numeric_limits<uint64_t>::max();
 
+    QUILL_VERIF_YIELD(2);
+
     // pick up contexts registered before ts_now was taken
     _update_active_thread_contexts_cache();
 
@@ -440,6 +449,8 @@ private:
 
     for (ThreadContext* thread_context : _active_thread_contexts_cache)
     {
+      QUILL_VERIF_YIELD(3);
+
       assert(thread_context->has_unbounded_queue_type() || thread_context->has_bounded_queue_type());
 
       if (thread_context->has_unbounded_queue_type())
@@ -698,6 +709,8 @@ private:
    */
   QUILL_ATTRIBUTE_HOT bool has_pending_events_for_caching_when_transit_event_buffer_empty() noexcept
   {
+    QUILL_VERIF_YIELD(4);
+
     _update_active_thread_contexts_cache();
 
     for (ThreadContext* thread_context : _active_thread_contexts_cache)
